@@ -6,8 +6,8 @@ NA = {}
 NOT_BUILT = 'static check for this property is not built yet (planned rule table in DESIGN.md section 4); not claimed until it runs'
 TECH = {}
 def census_note(mod):
-	ids = [rid[-1] for rid, desc, fn in mod.RULES if rid[-2:] in ('.p', '.q', '.w', '.v')]
-	names = {'p': 'same-name field transfers', 'q': 'swapped arguments', 'w': 'narrow arithmetic widened afterwards', 'v': 'field-versus-field comparisons'}
+	ids = [rid[-1] for rid, desc, fn in mod.RULES if rid[-2:] in ('.p', '.q', '.w', '.v', '.x', '.z')]
+	names = {'p': 'same-name field transfers', 'q': 'swapped arguments', 'w': 'narrow arithmetic widened afterwards', 'v': 'field-versus-field comparisons', 'x': 'fixed-array range indexing', 'z': 'named constants'}
 	return (' Also evaluated on the files / types of this property: the crate-wide censuses of rules/provenance.py (%s).' % ', '.join(names[i] for i in ids)) if ids else ''
 props = [json.loads(l)['id'] for l in open('/verif/properties.jsonl')]
 checks = []
